@@ -345,8 +345,47 @@ func prefixCutCases(g *Gen, o *Out) {
 	}
 }
 
+// longStreamCases: an archive of many small sections, several times the size of any reader's internal
+// buffer (4 KiB, 16 KiB …): intact, and cut at a few offsets, through every reader; the blocks a reader
+// handed out are re-hashed only after the whole scan (a reader must not hand out bytes it later reuses).
+func longStreamCases(g *Gen, o *Out) {
+	var bs []Blk
+	for i := 0; i < 40+g.pick(20); i++ {
+		bs = append(bs, g.BlockWith(g.bytes(200+g.pick(200))))
+	}
+	o.HashBlocks(bs)
+	r := []cid.Cid{bs[0].C}
+	for _, v1 := range []bool{true, false} {
+		arch := writeAll(r, bs, v1)
+		ver, end := 1, len(arch)
+		if !v1 {
+			ver = 2
+			end = int(leU64(arch[27:35]) + leU64(arch[35:43]))
+		}
+		ro := defaultReadOpts()
+		desc := fmt.Sprintf("roots=%s blocks=%s ver=%d dp=0 arch=%s", rootsArg(r), blocksStr(bs), ver, hex.EncodeToString(arch))
+		rds := append(append([]string{}, scanReaders...), skipReaders...)
+		if v1 {
+			rds = append(rds, rootReaders...)
+		}
+		for _, rd := range rds {
+			if rd == "v1" && ver == 2 {
+				continue
+			}
+			for _, k := range []int{end, end - 1, end - 150, 4096, 4097, 8192 + g.pick(100), end / 2} {
+				if k == end && ver == 2 {
+					continue
+				}
+				o.Line(fmt.Sprintf("mut rd=%s %s %s trunc=%d", rd, ro, desc, k), runReader(rd, ro, arch[:k])+" archok=1")
+				o.Count("longstream/" + rd)
+			}
+		}
+	}
+}
+
 func famC02(g *Gen, o *Out, n int, thorough bool) {
 	prefixCutCases(g, o)
+	longStreamCases(g, o)
 	bigSectionCases(g, o, thorough)
 	hashKindCases(g, o)
 	repeatCases(g, o)
